@@ -678,8 +678,7 @@ structure BindCfg where
   maskN      : List Bool
   maskM      : List Bool
   pin        : Bool
-  shapeStale : Option Nat     -- what the code computes (see `shapesOf`)
-  shapeTrue  : Option Nat     -- the shape of the binding's own rank
+  shape      : Option Nat     -- `shapes[i]`: the shape of the binding's own rank, if pinned
   rows       : List CRow
   hasRead    : Bool
   hasWrite   : Bool
@@ -745,9 +744,6 @@ def configure (c : CaseIn) : Except String (Nat × List BindCfg) := do
   let bindInfo := (List.range L).flatMap (fun p => (withPos.filter (fun x => x.1 = p)))
   if bindInfo.isEmpty then throw "no bindings"
   if (bindInfo.map (·.2.key)).eraseDups.length ≠ bindInfo.length then throw "duplicate binding key"
-  -- the variables `tensor`, `rank` that the `shapes` loop reads are those left behind by the
-  -- preceding loop over `bind_info`: the LAST binding's (traffic.py:447-476)
-  let lastB := match bindInfo.getLast? with | some x => x.2 | none => default
   let cfgs ← bindInfo.mapM (fun (p, b) => do
     let n := p + 1
     let ti ← match tensorOf c b.tensor with | some t => pure t | none => throw "unknown tensor"
@@ -782,16 +778,15 @@ def configure (c : CaseIn) : Except String (Nat × List BindCfg) := do
           | none => throw "evict-on not in loop order"
           | some q => if q + 1 ≤ n then pure (q + 1) else throw "evict-on below the bound rank")
     let pin := wr.isSome && (c.cache || b.rank ≠ b.evictOn)
-    let shapeTrue ← (if pin then match shapeAt c b.tensor b.rank with
-                                 | some s => pure (some s) | none => throw "shape" else pure none)
-    let shapeStale ← (if pin then match shapeAt c lastB.tensor lastB.rank with
-                                  | some s => pure (some s) | none => throw "shape" else pure none)
-    pure ({ tensor := b.tensor, n, evictEnd, epl, maskN, maskM, pin, shapeStale, shapeTrue
+    -- `shapes[i]` (traffic.py:471-480): `tensor, rank = info[:2]`, the binding's own rank
+    let shape ← (if pin then match shapeAt c b.tensor b.rank with
+                             | some s => pure (some s) | none => throw "shape" else pure none)
+    pure ({ tensor := b.tensor, n, evictEnd, epl, maskN, maskM, pin, shape
             rows := combine rrows wrows, hasRead := rd.isSome, hasWrite := wr.isSome } : BindCfg))
   pure (L, cfgs)
 
-def BindCfg.accs (b : BindCfg) (stale : Bool) : List Acc :=
-  accsOf b.maskN b.maskM b.epl (if stale then b.shapeStale else b.shapeTrue) b.rows
+def BindCfg.accs (b : BindCfg) : List Acc :=
+  accsOf b.maskN b.maskM b.epl b.shape b.rows
 
 /-- `traffic` as returned: for every tensor and access kind that has a trace, the bits charged -/
 def trafficTable (c : CaseIn) (cfgs : List BindCfg) (reads writes : Nat → Nat) :
